@@ -86,7 +86,7 @@ def run(ck):
     m3_gmm(ck, em, rng, 40 if quick else 600)
     m3_kmeans_init(ck, em, rng, 30 if quick else 300)
     from . import C10
-    C10.m3(ck, em, rng, 12 if quick else 150)
+    C10.m3(ck, em, rng, 70 if quick else 400)
 
 
 def m3_gmm(ck, em, rng, count):
